@@ -9,7 +9,7 @@ from .c15 import image, has_partial_list
 
 PALETTE = ['a', 'b', 'Z', '0', '_', ' ', '\n', '\t', '\r', "'", '"', '.', ',', '(', ')', '[', ']', '|', '%', ':', '-', '!', ';', '=', '#', '$',
            '{', '}', 'é', 'ß', 'λ', '中', '☃', ' ', '\x85', '\x0c', '\x0b', '\x00', '\x1b', '\xa0', '​', '﻿', '\U0001f600', '\U00010348', '/', '*', '+', '<', '>', '~', '`', '^', '&', '?', '@']
-_PLAIN = re.compile(r'^[a-z][A-Za-z0-9_]*$')
+_PLAIN = re.compile(r'[a-z][A-Za-z0-9_]*\Z')
 
 
 def gname(src):
